@@ -90,7 +90,14 @@ class InjectedStopIteration(StopIteration):
         self.node = node
 
 
-EXC_KINDS = {"stopiteration": InjectedStopIteration, "valueerror": InjectedValueError, "plain": InjectedFault, "noargs": InjectedNoArgs, "typeerror_kw": InjectedTypeError, "keyerror": InjectedKeyError}
+class InjectedFalsy(InjectedFault):
+    """A perfectly good exception whose truth value is False (a collection-like error: ``__len__`` is 0)."""
+
+    def __len__(self) -> int:
+        return 0
+
+
+EXC_KINDS = {"falsy": InjectedFalsy, "stopiteration": InjectedStopIteration, "valueerror": InjectedValueError, "plain": InjectedFault, "noargs": InjectedNoArgs, "typeerror_kw": InjectedTypeError, "keyerror": InjectedKeyError}
 InjectedFault.hg_injected = True
 
 
@@ -378,7 +385,14 @@ class Runtime:
         if action is None or action == "pause":
             self.log("handler_pause", n=node, r=rec["r"], i=rec["i"], key=rec["key"])
             return None
-        return interrupt_response(spec, args)
+        resp = interrupt_response(spec, args)
+        if spec.get("shared_resp") and isinstance(resp, dict):
+            # the handler hands out ONE dict object every time it is asked (a module-level constant, a cached answer):
+            # that object belongs to the handler's author, the framework must not write into it
+            shared = self.__dict__.setdefault("shared_responses", {})
+            key = (node, canon(resp))
+            resp = shared.setdefault(key, resp)
+        return resp
 
     def int_body(self, node: str, args: dict) -> Any:
         rec = self._begin(node, args, kind="interrupt")
